@@ -2072,7 +2072,7 @@ fn history_body(h: &mut Hist, r: &mut Rng, em: &Emphasis) {
         script_ergsym_before_tip902(h, r);
         return;
     }
-    if em.chain_ops && r.chance(1, 40) {
+    if em.chain_ops && r.chance(1, 15) {
         script_big_block(h, r);
         return;
     }
